@@ -121,7 +121,7 @@ fn run_mode(ctx: &mut Ctx, mode: Mode) {
                         if !name.starts_with("test::") {
                             continue;
                         }
-                        let Some(inputs) = input_vectors(func, small, max_params, max_vectors) else {
+                        let Some(inputs) = input_vectors(&prog, func, small, max_params, max_vectors) else {
                             if cfg_i == 0 {
                                 ctx.count("functions_skipped_non_scalar_params", 1);
                             }
@@ -149,11 +149,11 @@ fn run_mode(ctx: &mut Ctx, mode: Mode) {
                         let base = baseline.entry(name.clone()).or_default();
                         for (ii, args) in inputs.iter().enumerate() {
                             for (gi, gas) in gases.iter().enumerate() {
-                                let case = || json!({"snippet":snip.name,"cfg":cfg.name(),"function":name,"args":felts_str(args),"gas":gas});
+                                let case = || json!({"snippet":snip.name,"cfg":cfg.name(),"function":name,"args":args_str(args),"gas":gas});
                                 if !ctx.sub(case) {
                                     continue;
                                 }
-                                ctx.distinct(&(snip.name.as_str(), cfg.name(), name.as_str(), args.iter().map(|f| f.to_bytes_be()).collect::<Vec<_>>(), *gas));
+                                ctx.distinct(&(snip.name.as_str(), cfg.name(), name.as_str(), args_str(args), *gas));
                                 if ii == 1 && gi == 0 && cfg_i == 0 {
                                     ctx.sample(case);
                                 }
@@ -183,7 +183,7 @@ fn run_mode(ctx: &mut Ctx, mode: Mode) {
                                             ctx.violation(
                                                 "result-depends-on-configuration",
                                                 format!("{} vs {}: {} != {}", cfgs[0].name(), cfg.name(), value_json(b), value_json(v)),
-                                                json!({"snippet":snip.name,"function":name,"args":felts_str(args),"baseline_cfg":cfgs[0].name(),"cfg":cfg.name(),"baseline":value_json(b),"value":value_json(v),"source":snip.code}),
+                                                json!({"snippet":snip.name,"function":name,"args":args_str(args),"baseline_cfg":cfgs[0].name(),"cfg":cfg.name(),"baseline":value_json(b),"value":value_json(v),"source":snip.code}),
                                             );
                                         }
                                     }
